@@ -51,6 +51,16 @@ class Parked:
         except Exception:
             return None
 
+    def _all_stopped(self, pid):
+        try:
+            for t in os.listdir("/proc/%d/task" % pid):
+                st = open("/proc/%d/task/%s/stat" % (pid, t)).read().rsplit(")", 1)[1].split()[0]
+                if st not in ("T", "t", "Z", "X"):
+                    return False
+            return True
+        except Exception:
+            return True
+
     def _reached(self):
         """has the call we park after been logged? (distinguishes the injected stop from start-up ptrace stops)"""
         try:
@@ -71,6 +81,14 @@ class Parked:
                     time.sleep(0.02)
                     if self._state(c) in ("T", "t") and self.p.poll() is None and self._reached():
                         self.tracee = c
+                        # a Go process has several threads; the stop reaches them one after the other, and the goroutine that made the call
+                        # may meanwhile have been handed to another thread and gone on.  Where the process *is* can only be read from its
+                        # trace once every thread has stopped: wait for that, then read the trace again.
+                        t1 = time.time()
+                        while time.time() - t1 < 2.0 and not self._all_stopped(c):
+                            time.sleep(0.005)
+                        time.sleep(0.03)
+                        self._reached()
                         return True
             time.sleep(0.005)
         return False
